@@ -82,7 +82,11 @@ def struct_keys(r, named):
         "rename_all": lambda: f'rename_all = "{r.choice(RULES)}"',
         "tag": lambda: f'tag = {q(r.choice(["t", "type", "kind"]))}',
         "export": lambda: "export",
-        "export_to": lambda: f'export_to = {q(r.choice(["x/", "x/y.ts", "../z/"]))}',
+        # (the documentation: "accepts arbitrary expressions")
+        "export_to": lambda: r.choice([f'export_to = {q(r.choice(["x/", "x/y.ts", "../z/"]))}', 'export_to = concat!("x/", "c.ts")',
+                                       'export_to = String::from("x/") + "plus/"', 'export_to = *&"x/deref.ts"',
+                                       'export_to = { let dir = "x/blk/"; dir }', 'export_to = "x/cast.ts" as &str',
+                                       'export_to = if true { "x/if/" } else { "x/else/" }']),
         "bound": lambda: 'bound = ""',
         "optional_fields": lambda: r.choice(["optional_fields", "optional_fields = nullable"]),
     }
